@@ -18,7 +18,7 @@ func init() {
 			"C19.2 every buildAndSend/buildAndSendErr call writes on req.Conn to req.SrcAddr of the same req (helpers forwarding their own parameters are discharged by propagation to their callers; buildAndSend itself writes msg.Raw on conn to dst); " +
 			"C19.3 the method of every response type equals the method the handler is dispatched for (or the request message's own method in the dispatcher); " +
 			"C19.4 the mapped address in Binding/Allocate responses is AddrIPPort(req.SrcAddr), the relayed address is AddrIPPort(alloc.RelayAddr) of the allocation just created, the LIFETIME is the duration handed to CreateAllocation; " +
-			"C19.5 SetResponseCache stores the request's transaction id and the attribute slice that is sent; on the existing-allocation path success is sent only on the id==TransactionID edge, otherwise 437, and no state effect lies on either path; " +
+			"C19.5 SetResponseCache stores the request's transaction id and the attribute slice that is sent; on the existing-allocation path success is sent only on the id==TransactionID edge — built from all the cached attributes, in order, followed by the integrity attribute, however that list is put together — otherwise 437, and no state effect lies on either path; " +
 			"C19.6 (=C04.3) the fingerprint under which the request's allocation (and its cached answer) is looked up is injective in the 5-tuple.; " +
 			"C19.7 every response sent by package server is assembled by buildMsg (transaction id first), never by hand; " +
 			"C19.8 (=C15.2/C06.5r) the teardown of an allocation stops its lifetime timer (and releases everything else) on every path, so that no expiry left over from an earlier allocation of a 5-tuple ends a later one before the LIFETIME it was told.",
@@ -402,6 +402,43 @@ func ruleTruthfulAddresses(c *Ctx, rule string) {
 				ic, ii := callOf(lit.fields["IP"])
 				pc, pi := callOf(lit.fields["Port"])
 				ok := ic != nil && ic == pc && ii == 0 && pi == 1 && ic.Call.StaticCallee() == addrIPPort && w.key(ic.Call.Args[0]) == w.key(root.Params[0])+".SrcAddr"
+				// ... or of a module helper over req.SrcAddr that answers with AddrIPPort's
+				// results for every address AddrIPPort accepts (what it does for the others —
+				// address types of wrapped listeners — is outside the statement)
+				if !ok && ic != nil && ic == pc && ii == 0 && pi == 1 {
+					if h := ic.Call.StaticCallee(); h != nil && w.IsMod[h] && len(h.Blocks) > 0 && len(h.Params) == len(ic.Call.Args) {
+						var ac *ssa.Call
+						w.eachInstr(h, func(i2 ssa.Instruction) {
+							if c2, isC := i2.(*ssa.Call); isC && c2.Call.StaticCallee() == addrIPPort {
+								if p := rawParamOf(c2.Call.Args[0], h); p != nil && w.key(ic.Call.Args[paramIndex(p)]) == w.key(root.Params[0])+".SrcAddr" {
+									ac = c2
+								}
+							}
+						})
+						if ac != nil && ac.Block() == h.Blocks[0] {
+							all := true
+							for _, r := range returnsOf(h) {
+								e0, i0 := callOf(w.resolveLoad(r.Results[0]))
+								e1, i1 := callOf(w.resolveLoad(r.Results[1]))
+								if e0 == ac && e1 == ac && i0 == 0 && i1 == 1 {
+									continue
+								}
+								failed := false
+								for _, f := range w.factsAt(r) {
+									if v, isNil, isNF := nilFact(f); isNF && !isNil {
+										if fc, fi := callOf(w.resolveLoad(v)); fc == ac && fi == 2 {
+											failed = true
+										}
+									}
+								}
+								if !failed {
+									all = false
+								}
+							}
+							ok = all
+						}
+					}
+				}
 				if ok {
 					c.OK(rule, fname(fn), "XOR-MAPPED-ADDRESS", pos, "IP/Port = AddrIPPort(req.SrcAddr)")
 				} else {
@@ -517,6 +554,27 @@ func ruleRetransmission(c *Ctx, rule string) {
 			sends = append(sends, lc)
 		}
 	}
+	// sameID: at this instruction, is the cached id known equal (1) / unequal (-1) to the request's?
+	sameID := func(in ssa.Instruction) int {
+		same := 0
+		for _, fct := range w.factsAt(in) {
+			if fct.Op != "==" {
+				continue
+			}
+			for _, pair := range [][2]ssa.Value{{fct.X, fct.Y}, {fct.Y, fct.X}} {
+				gc, gi := callOf(pair[0])
+				tb, tf, isL := fieldLoad(pair[1])
+				if gc != nil && gi == 0 && gc.Call.StaticCallee() == getCache && isL && tf.Name() == "TransactionID" && w.key(tb) == msgKey {
+					if fct.Truth {
+						same = 1
+					} else {
+						same = -1
+					}
+				}
+			}
+		}
+		return same
+	}
 	// SetResponseCache
 	n := 0
 	w.eachInstrDeep(h, func(in ssa.Instruction) {
@@ -551,17 +609,32 @@ func ruleRetransmission(c *Ctx, rule string) {
 		// every path from CreateAllocation success to a return passes SetResponseCache before a send of the success message
 		c.Anchor(rule, "cache before send")
 		bad := ""
+		badRetry, nRetry := "", 0
 		for _, sd := range sends {
 			call := sd.at
 			bm, _ := callOf(sd.args[2])
 			if bm == nil || bm.Call.StaticCallee() != buildMsg || !isSuccessType(w, bm.Call.Args[1]) {
 				continue
 			}
-			// is this the fresh-allocation success (its attrs come from an append of a literal slice)? then a SetResponseCache must dominate it
-			if ab := appendBase(bm.Call.Args[2]); ab != nil {
-				if gc, _ := callOf(rootOfAppendBase(w, ab)); gc != nil && gc.Call.StaticCallee() == getCache {
-					continue // the retransmission path re-sends cached attrs
+			// the retransmission path (cached id == request id) re-sends the cached attributes:
+			// its list is all of GetResponseCache's attributes, in order, followed by the one
+			// integrity attribute — however the list is put together
+			if sameID(bm) == 1 {
+				nRetry++
+				parts, ok := w.seqParts(bm.Call.Args[2], bm, 0)
+				fromCache := false
+				if ok && len(parts) == 2 && parts[0].all != nil && parts[1].elem != nil {
+					if gc, gi := callOf(w.resolveLoad(parts[0].all)); gc != nil && gc.Call.StaticCallee() == getCache && gi == 1 {
+						fromCache = true
+					}
 				}
+				if !fromCache {
+					badRetry = "the answer to a retransmitted Allocate at " + w.instrPos(call) + " is not built from all the cached attributes followed by the integrity attribute (" + descParts(w, parts, ok) + "): the retransmission gets a different answer than the first request"
+				}
+				continue
+			}
+			// the fresh-allocation success: a SetResponseCache must dominate it
+			{
 				dominated := false
 				w.eachInstrDeep(h, func(in2 ssa.Instruction) {
 					if c2, ok := in2.(*ssa.Call); ok && c2.Call.StaticCallee() == setCache && instrDominates(c2, call) {
@@ -577,6 +650,15 @@ func ruleRetransmission(c *Ctx, rule string) {
 			c.OK(rule, fname(h), "cache before send", w.pos(h.Pos()), "SetResponseCache dominates the send of the fresh success response")
 		} else {
 			c.Bad(rule, fname(h), "cache before send", w.pos(h.Pos()), bad)
+		}
+		c.Anchor(rule, "retransmission reply")
+		switch {
+		case badRetry != "":
+			c.Bad(rule, fname(h), "retransmission reply", w.pos(h.Pos()), badRetry)
+		case nRetry == 0:
+			c.Bad(rule, fname(h), "retransmission reply", w.pos(h.Pos()), "no success is sent on the cached id == request id edge: anchor gone")
+		default:
+			c.OK(rule, fname(h), "retransmission reply", w.pos(h.Pos()), "the cached attributes, whole and in order, followed by MESSAGE-INTEGRITY")
 		}
 	}
 	// existing-allocation path
@@ -602,24 +684,7 @@ func ruleRetransmission(c *Ctx, rule string) {
 				continue
 			}
 			bargs := b.args
-			// facts: id == TransactionID ?
-			same := 0
-			for _, fct := range w.factsAt(in) {
-				if fct.Op != "==" {
-					continue
-				}
-				for _, pair := range [][2]ssa.Value{{fct.X, fct.Y}, {fct.Y, fct.X}} {
-					gc, gi := callOf(pair[0])
-					tb, tf, isL := fieldLoad(pair[1])
-					if gc != nil && gi == 0 && gc.Call.StaticCallee() == getCache && isL && tf.Name() == "TransactionID" && w.key(tb) == msgKey {
-						if fct.Truth {
-							same = 1
-						} else {
-							same = -1
-						}
-					}
-				}
-			}
+			same := sameID(in)
 			if isSuccessType(w, bargs[1]) {
 				nSucc++
 				if same != 1 {
@@ -690,6 +755,24 @@ func appendBase(v ssa.Value) ssa.Value {
 }
 
 func rootOfAppendBase(w *World, v ssa.Value) ssa.Value { return w.resolveLoad(v) }
+
+func descParts(w *World, parts []seqPart, ok bool) string {
+	if !ok {
+		return "contents not determined"
+	}
+	if len(parts) == 0 {
+		return "an empty list"
+	}
+	var ss []string
+	for _, p := range parts {
+		if p.all != nil {
+			ss = append(ss, "all of "+w.desc(p.all))
+		} else {
+			ss = append(ss, w.desc(p.elem))
+		}
+	}
+	return strings.Join(ss, " ++ ")
+}
 
 // errorCodeIs: among the variadic attributes of a buildMsg call there is an
 // &stun.ErrorCodeAttribute{Code: k}.
